@@ -175,7 +175,7 @@ theorem loop_step (f : Nat) (x : UInt8) (t : Bytes) (esc : Bool) (acc : Bytes) :
             if (Utf8.decodeRune (x :: t)).1 == 117 then
               if ((x :: t).drop (Utf8.decodeRune (x :: t)).2).length < 4 then none
               else (Quote.parseHex4 (((x :: t).drop (Utf8.decodeRune (x :: t)).2).take 4)).map
-                (fun n => (n, ((x :: t).drop (Utf8.decodeRune (x :: t)).2).drop 4))
+                (fun n => Quote.surrogatePair n (((x :: t).drop (Utf8.decodeRune (x :: t)).2).drop 4))
             else if (Utf8.decodeRune (x :: t)).1 == 34 then some (34, (x :: t).drop (Utf8.decodeRune (x :: t)).2)
             else (Quote.unescape (Utf8.decodeRune (x :: t)).1).map
               (fun r => (Int.ofNat r, (x :: t).drop (Utf8.decodeRune (x :: t)).2))
